@@ -9,14 +9,18 @@ import (
 // C14 driver.  Two kinds of cases, selected by cfg[0]:
 //
 //	cfg [0]              client side: the C11 harness (real http2Client against a scripted server,
-//	                     zz_verif_clientframes_test.go) with GOAWAY-centred scripts; ops/obs as there.
-//	cfg [1, maxStreams]  server side: the C12 harness (real http2Server against a scripted client,
-//	                     zz_verif_serverheaders_test.go) with
+//	                     zz_verif_clientframes_test.go) with GOAWAY-centred scripts; ops/obs as there,
+//	                     plus op [30] http2Client.GracefulClose (local drain).
+//	cfg [1, maxStreams, zw]  server side: the C12 harness (real http2Server against a scripted client,
+//	                     zz_verif_serverheaders_test.go; zw = 1: the client's SETTINGS_INITIAL_WINDOW_SIZE
+//	                     is 0, every response message waits in loopy for a WINDOW_UPDATE) with
 //	    op [1, sid, end]  HEADERS of a well-formed gRPC request
 //	    op [2, sid]       RST_STREAM(CANCEL) from the client
 //	    op [3, sid]       the application finishes stream sid (WriteStatus OK)
 //	    op [7]            http2Server.Drain
 //	    op [8]            the client acknowledges the drain PING
+//	    op [9, sid, n]    the application writes a 5+n byte message on stream sid and finishes it
+//	    op [10, sid, inc] WINDOW_UPDATE(sid, inc) from the client
 //	    op [12, ms]       virtual time passes
 //	  obs [nActive, handled, maxStreamID, events...] as in the C12 driver
 //	      ([7,last,code,0] GOAWAY, [6,0,0,0] PING, [9,sid,...] handler, [1,sid,http,grpc] HEADERS,
@@ -28,12 +32,18 @@ func vGoAwayExec(cfg []int64, ops [][]int64) (obs [][]int64, nt bool, tags []str
 			if len(op) > 0 && op[0] == 7 {
 				nt = true
 			}
+			if len(op) > 0 && op[0] == 30 {
+				tags = append(tags, "graceful-close")
+			}
 		}
 		return obs, nt, tags
 	}
-	ms := int64(2)
+	ms, zw := int64(2), int64(0)
 	if len(cfg) > 1 {
 		ms = cfg[1]
+	}
+	if len(cfg) > 2 && cfg[2] == 1 {
+		zw = 1
 	}
 	F := vServerHeadersField
 	var xops [][]int64
@@ -45,12 +55,14 @@ func vGoAwayExec(cfg []int64, ops [][]int64) (obs [][]int64, nt bool, tags []str
 			xops = append(xops, []int64{op[0], 0})
 		case len(op) == 2 && (op[0] == 2 || op[0] == 3 || op[0] == 12):
 			xops = append(xops, op)
+		case len(op) == 3 && (op[0] == 9 || op[0] == 10):
+			xops = append(xops, op)
 		default:
 			xops = append(xops, []int64{0})
 		}
 	}
 	vServerHeadersT = vGoAwayT
-	obs, _, tags = vServerHeadersExec([]int64{ms, 4096, 0}, xops)
+	obs, _, tags = vServerHeadersExec([]int64{ms, 4096, 0, zw}, xops)
 	for _, o := range obs {
 		for i := 3; i+3 < len(o); i += 4 {
 			if o[i] == 7 && o[i+1] != 2147483647 {
@@ -96,16 +108,35 @@ func vGoAwayGen(r *vRand, tier string, idx int) ([]int64, [][]int64) {
 			// first GOAWAY(0)?? no: equal ids twice, then smaller
 			ops = append(ops, []int64{1, 0}, []int64{1, 0}, []int64{1, 0}, []int64{1, 0}, []int64{7, 5, 0}, []int64{7, 5, 0}, []int64{7, 1, 0},
 				[]int64{7, 3, 0}, okT(1))
+		case 12:
+			// local GracefulClose with two streams in flight, then the server's first GOAWAY, then a
+			// later GOAWAY with a larger id
+			ops = append(ops, []int64{1, 0}, []int64{1, 0}, []int64{30}, []int64{1, 0}, []int64{7, 1, 0}, []int64{7, 3, 0}, []int64{1, 0})
+		case 14:
+			// GracefulClose with no stream: closed at once; and twice
+			ops = append(ops, []int64{1, 0}, okT(1), []int64{30}, []int64{30}, []int64{1, 0}, []int64{7, 1, 0})
+		case 16:
+			// GracefulClose, then the two-phase drain of the server; the last stream finishes
+			ops = append(ops, []int64{1, 0}, []int64{1, 0}, []int64{1, 0}, []int64{30}, []int64{7, 2147483647, 0}, []int64{30}, []int64{7, 3, 0},
+				[]int64{7, 5, 0}, okH(1), okT(1), okT(3), []int64{1, 0})
+		case 18:
+			// GOAWAY first, GracefulClose afterwards (no effect), larger id
+			ops = append(ops, []int64{1, 0}, []int64{1, 0}, []int64{1, 0}, []int64{7, 3, 0}, []int64{30}, []int64{7, 5, 0}, []int64{1, 0})
 		default:
 			n := 3 + r.Intn(5)
 			for i := 0; i < n; i++ {
 				ops = append(ops, []int64{1, 0})
 			}
+			pGC := r.PickInt(0, 8, 8, 20)
 			next := int64(2*n + 1)
 			sids := func() int64 { return int64(2*r.Intn(n+1) + 1) }
 			m := 8 + r.Intn(14)
 			for i := 0; i < m; i++ {
 				x := r.Intn(100)
+				if r.Chance(pGC) {
+					ops = append(ops, []int64{30})
+					continue
+				}
 				switch {
 				case x < 30:
 					id := r.PickI64(0, 1, sids(), sids(), next-2, next, 2147483647, 2147483647, int64(2*r.Intn(n+2)))
@@ -128,6 +159,7 @@ func vGoAwayGen(r *vRand, tier string, idx int) ([]int64, [][]int64) {
 	}
 	// ---- server side ----
 	ms := r.PickI64(1, 2, 3, 100)
+	zw := vB(r.Chance(45))
 	switch idx {
 	case 1:
 		// textbook graceful drain: ack, then streams complete
@@ -146,6 +178,22 @@ func vGoAwayGen(r *vRand, tier string, idx int) ([]int64, [][]int64) {
 	case 7:
 		// drain with no stream at all, twice
 		ops = append(ops, []int64{7}, []int64{7}, []int64{8}, []int64{8}, []int64{12, 6000}, []int64{1, 1, 0})
+	case 9:
+		// the only stream has finished but its response waits for window when the final GOAWAY is
+		// written: the connection stays, the window opens, response + status arrive, then it closes
+		ops = append(ops, []int64{1, 1, 0}, []int64{9, 1, 10}, []int64{7}, []int64{8}, []int64{12, 2000}, []int64{10, 1, 14},
+			[]int64{10, 1, 1}, []int64{12, 999}, []int64{12, 1})
+		ms, zw = 100, 1
+	case 11:
+		// the same with the 5 s timer instead of the ack, a half-closed stream and a second stream
+		ops = append(ops, []int64{1, 1, 1}, []int64{1, 3, 0}, []int64{9, 1, 0}, []int64{9, 3, 1000}, []int64{7}, []int64{12, 5000}, []int64{1, 5, 0},
+			[]int64{10, 3, 2000}, []int64{12, 1500}, []int64{10, 1, 5}, []int64{12, 1000})
+		ms, zw = 100, 1
+	case 13:
+		// a blocked finished stream is reset by the client while draining: nothing left, loopy goes
+		ops = append(ops, []int64{1, 1, 0}, []int64{9, 1, 100}, []int64{3, 1}, []int64{7}, []int64{8}, []int64{10, 1, 50}, []int64{2, 1},
+			[]int64{10, 1, 100}, []int64{12, 1000})
+		ms, zw = 2, 1
 	default:
 		sid := int64(1)
 		var open []int64
@@ -162,14 +210,20 @@ func vGoAwayGen(r *vRand, tier string, idx int) ([]int64, [][]int64) {
 				open = append(open, sid)
 				sid += 2 + 2*int64(r.Intn(2))*int64(vB(r.Chance(10)))
 			case x < 55 && len(open) > 0:
-				ops = append(ops, []int64{3, open[r.Intn(len(open))]})
+				if r.Chance(50) {
+					ops = append(ops, []int64{9, open[r.Intn(len(open))], r.PickI64(0, 1, 10, 100, 1000)})
+				} else {
+					ops = append(ops, []int64{3, open[r.Intn(len(open))]})
+				}
 			case x < 63 && len(open) > 0:
 				ops = append(ops, []int64{2, open[r.Intn(len(open))]})
 			case x < 70 || (!drained && i > n/2):
 				ops = append(ops, []int64{7})
 				drained = true
-			case x < 84:
+			case x < 80:
 				ops = append(ops, []int64{8})
+			case x < 88 && len(open) > 0:
+				ops = append(ops, []int64{10, open[r.Intn(len(open))], r.PickI64(1, 4, 5, 6, 15, 105, 1005, 2147483647)})
 			default:
 				ops = append(ops, []int64{12, r.PickI64(1, 500, 999, 1000, 1001, 4000, 5000, 6000)})
 			}
@@ -179,9 +233,17 @@ func vGoAwayGen(r *vRand, tier string, idx int) ([]int64, [][]int64) {
 				ops = append(ops, []int64{3, s})
 			}
 		}
+		if zw == 1 {
+			// release the windows: every response that still waits is flushed
+			for _, s := range open {
+				if r.Chance(75) {
+					ops = append(ops, []int64{10, s, 2147483647})
+				}
+			}
+		}
 		ops = append(ops, []int64{12, 2000}, []int64{12, 5000})
 	}
-	return []int64{1, ms}, ops
+	return []int64{1, ms, zw}, ops
 }
 
 func TestVerif_GoAway(t *testing.T) {
